@@ -4,6 +4,7 @@ package main
 
 import (
 	"fmt"
+	"os"
 	"go/token"
 	"go/types"
 	"sort"
@@ -365,6 +366,13 @@ func (ex *Exec) loopHead(fr *Frame, li *loopInfo, st *State) {
 	}
 	// havoc
 	ms := ex.loopModSet(fr, li)
+	if os.Getenv("GOCV_DEBUG_EFFECTS") != "" {
+		var cs []string
+		for a := range ms.cells {
+			cs = append(cs, a.Comment)
+		}
+		fmt.Fprintf(os.Stderr, "loop %d of %s: allCell=%v allHeap=%v cells=%v\n", li.number, fr.fn.Name(), ms.allCell, ms.allHeap, cs)
+	}
 	ex.havocModSet(fr, st, ms, fmt.Sprintf("L%d", li.number))
 	// range-over-slice loops: the hidden index stays within [-1, len) by construction of the lowering
 	ex.rangeIndexFact(fr, li, st)
@@ -516,6 +524,9 @@ func (ex *Exec) addrEffects(addr ssa.Value, ms *modSet, binds map[*ssa.FreeVar]s
 					return
 				}
 			}
+			if os.Getenv("GOCV_DEBUG_EFFECTS") != "" {
+				fmt.Fprintf(os.Stderr, "addrEffects: unknown root %T %s for %s\n", cur, cur.String(), addr.String())
+			}
 			ms.allCell = true
 			ms.allHeap = true
 			return
@@ -586,27 +597,40 @@ func (ex *Exec) callEffects(fn *ssa.Function, c *ssa.CallCommon, ms *modSet, bin
 		ms.allHeap = true
 		return
 	}
+	// only heap effects of a callee matter to the caller: its locals (and those of its closures) are its own
+	sub := newModSet()
 	for _, b := range callee.Blocks {
 		for _, in := range b.Instrs {
 			switch y := in.(type) {
 			case *ssa.Alloc:
 			case *ssa.Store:
-				// stores to callee locals are irrelevant
-				sub := newModSet()
-				ex.addrEffects(y.Addr, sub, nil)
-				for k, v := range sub.comps {
-					ms.comps[k] = v
+				s2 := newModSet()
+				ex.addrEffects(y.Addr, s2, nil)
+				for k, v := range s2.comps {
+					sub.comps[k] = v
 				}
-				for k := range sub.globals {
-					ms.globals[k] = true
+				for k := range s2.globals {
+					sub.globals[k] = true
 				}
-				if sub.allHeap {
-					ms.allHeap = true
+				if s2.allHeap && !s2.allCell {
+					sub.allHeap = true
 				}
 			default:
-				ex.instrEffects(callee, in, ms, nil, depth+1)
+				ex.instrEffects(callee, in, sub, nil, depth+1)
 			}
 		}
+	}
+	for k, v := range sub.comps {
+		ms.comps[k] = v
+	}
+	for k := range sub.globals {
+		ms.globals[k] = true
+	}
+	for k, v := range sub.maps {
+		ms.maps[k] = v
+	}
+	if sub.allHeap {
+		ms.allHeap = true
 	}
 }
 
